@@ -1125,7 +1125,11 @@ def run_data_case(case, blocking=False):
                         viol.append(('truncation-as-eof:' + site,
                                      'read returned %r normally and the connection is closed although no close_notify '
                                      'had arrived (ignoreAbruptClose=%r)' % (r[1], A.ignoreAbruptClose)))
-                    if got_cn:
+                    if got_cn and cn_arrived and clean_prefix:
+                        # orderly only when nothing before the close_notify required a send of ours (KeyUpdate
+                        # update_requested, heartbeat / PHA request ...): then the only send that can fail is the
+                        # courtesy close_notify reply.  A failed ANSWER to a control message is a genuine
+                        # transport failure, raising / invalidating the session is what the property demands.
                         orderly = True
                 if r[0] == 'exc' and c[0] == 'RemoteAlert':
                     if not any(d == c[1] for (_, d) in sent_alerts) or c[1] == 0:
